@@ -192,6 +192,20 @@ CHECKS = {
         ref="DESIGN.md 6 (C04)",
         technique="TLA+ state machine of name resolution and rebinding; TLC-generated histories replayed on real "
                   "closures; TLC trace validation of every built query after every step"),
+    "C03": dict(
+        text="spec/Source.tla defines statement layouts (1-3 chained operator calls, each with a lambda or a one-line def "
+             "by name; operator, parameter name, break position before the dot / after the parenthesis / inside the "
+             "body / before the closing parenthesis, string literals with brackets and the word lambda, comments, "
+             "enclosing function / if / method / comprehension / conditional expression / nested def / with, a second "
+             "lambda in the same statement, a preceding statement on the line) and Supported(layout) (DESIGN.md A.3). "
+             "TLC enumerates layouts, the harness renders real modules and runs them against the real operators through "
+             "a recording proxy, and TLC (TraceSource) decides per call: a recovered lambda is structurally the lambda "
+             "passed at that call (WrongLambda is never allowed), and supported layouts are recovered without error.",
+        ref="DESIGN.md 6 (C03), A.3",
+        technique="TLC-enumerated source layouts rendered to real Python modules; TLC trace validation of recovered "
+                  "lambda = passed lambda and Supported => recovered",
+        note="TLC enumerates and judges; the tokenizer-driven recovery algorithm itself is exercised, not modelled "
+             "(DESIGN.md 8)"),
 }
 
 ORDER = ["C%02d" % i for i in range(1, 21)]
